@@ -19,13 +19,52 @@ Record an_state := mk_an_state {
   a_sub : bool;         (* the source is in m_input_ports[0]->subscribed_nodes *)
   a_roc : bool;         (* m_send_reply_on_change *)
   a_ob : N;             (* m_output_ports[1].universe_address *)
-  a_buf2 : dbuf         (* *m_output_ports[1].buffer *)
+  a_buf2 : dbuf;        (* *m_output_ports[1].buffer *)
+  a_from : N;           (* per-datagram input, set before each datagram: the sender's IP (its last octet; never 0) *)
+  a_ltp : bool;         (* m_output_ports[0].merge_mode == ARTNET_MERGE_LTP (port 1 is HTP) *)
+  a_s0 : option (N * dbuf) * option (N * dbuf);   (* m_output_ports[0].sources[0..1]: None = wildcard address *)
+  a_s1 : option (N * dbuf) * option (N * dbuf)    (* m_output_ports[1].sources[0..1] *)
 }.
-Definition set_buf st b := mk_an_state (a_net st) (a_oa st) (a_ia st) b (a_uids st) (a_sub st) (a_roc st) (a_ob st) (a_buf2 st).
-Definition set_buf2 st b := mk_an_state (a_net st) (a_oa st) (a_ia st) (a_buf st) (a_uids st) (a_sub st) (a_roc st) (a_ob st) b.
-Definition set_uids st u := mk_an_state (a_net st) (a_oa st) (a_ia st) (a_buf st) u (a_sub st) (a_roc st) (a_ob st) (a_buf2 st).
-Definition set_sub st s := mk_an_state (a_net st) (a_oa st) (a_ia st) (a_buf st) (a_uids st) s (a_roc st) (a_ob st) (a_buf2 st).
-Definition set_roc st r := mk_an_state (a_net st) (a_oa st) (a_ia st) (a_buf st) (a_uids st) (a_sub st) r (a_ob st) (a_buf2 st).
+Definition upd st (buf : dbuf) (uids : list N) (sub roc : bool) (buf2 : dbuf) s0 s1 :=
+  mk_an_state (a_net st) (a_oa st) (a_ia st) buf uids sub roc (a_ob st) buf2 (a_from st) (a_ltp st) s0 s1.
+Definition set_buf st b := upd st b (a_uids st) (a_sub st) (a_roc st) (a_buf2 st) (a_s0 st) (a_s1 st).
+Definition set_buf2 st b := upd st (a_buf st) (a_uids st) (a_sub st) (a_roc st) b (a_s0 st) (a_s1 st).
+Definition set_uids st u := upd st (a_buf st) u (a_sub st) (a_roc st) (a_buf2 st) (a_s0 st) (a_s1 st).
+Definition set_sub st x := upd st (a_buf st) (a_uids st) x (a_roc st) (a_buf2 st) (a_s0 st) (a_s1 st).
+Definition set_roc st r := upd st (a_buf st) (a_uids st) (a_sub st) r (a_buf2 st) (a_s0 st) (a_s1 st).
+Definition set_from st f :=
+  mk_an_state (a_net st) (a_oa st) (a_ia st) (a_buf st) (a_uids st) (a_sub st) (a_roc st) (a_ob st) (a_buf2 st) f
+              (a_ltp st) (a_s0 st) (a_s1 st).
+
+(* UpdatePortFromSource(port, source) for a port whose tracked sources are `srcs`, from address `from` with
+   buffer `nb` (no source ever times out: the harness's clock does not advance).  Result: None = "No room at the
+   inn" (nothing changes, on_data does not run); Some (sources', port buffer, entered merge mode) *)
+Definition an_update (ltp : bool) (srcs : option (N * dbuf) * option (N * dbuf)) (from : N) (nb : dbuf)
+  : option ((option (N * dbuf) * option (N * dbuf)) * dbuf * bool) :=
+  let '(x, y) := srcs in
+  let is_me o := match o with Some (a, _) => a =? from | None => false end in
+  let active o := match o with Some _ => negb (is_me o) | None => false end in
+  let slot := if is_me x then Some 0 else if is_me y then Some 1 else None in
+  let n_active := (if active x then 1 else 0) + (if active y then 1 else 0) in
+  let first_empty := match x, y with None, _ => Some 0 | Some _, None => Some 1 | _, _ => None end in
+  let place k := if k =? 0 then (Some (from, nb), y) else (x, Some (from, nb)) in
+  let go srcs' entered :=
+    let '(x', y') := srcs' in
+    let buf := if ltp then nb
+               else match x', y' with
+                    | Some (_, b0), Some (_, b1) => htp_merge b0 b1
+                    | Some (_, b0), None => b0
+                    | None, Some (_, b1) => b1
+                    | None, None => nb
+                    end in
+    Some (srcs', buf, entered) in
+  match slot with
+  | Some k => go (place k) false
+  | None => match first_empty with
+            | None => None
+            | Some k => go (place k) (negb (n_active =? 0))
+            end
+  end.
 
 Inductive an_event :=
 | EvTx                      (* an ArtPollReply was sent *)
@@ -138,11 +177,27 @@ Definition handle_dmx : prog an_out :=
              let m0 := a_oa st =? universe_id in
              let m1 := a_ob st =? universe_id in
              if m0 || m1 then
-               (* per matching port: source.buffer.Set(packet.data, data_size); UpdatePortFromSource: one source => copy *)
+               (* per matching port, in port order: source.buffer.Set(packet.data, data_size); UpdatePortFromSource:
+                  a new source next to an active one enters merge mode => SendPollReplyIfRequired() *)
                ReadBlk (H + AN_DMX_data) data_size (fun d =>
-                 let st1 := if m0 then set_buf st (buf_set d) else st in
-                 let st2 := if m1 then set_buf2 st1 (buf_set d) else st1 in
-                 Ret (st2, ev_if m0 (EvData 0) ++ ev_if m1 (EvData 1)))
+                 let nb := buf_set d in
+                 let '(st1, ev1) :=
+                   if m0 then match an_update (a_ltp st) (a_s0 st) (a_from st) nb with
+                              | Some (s', b, ent) =>
+                                (upd st b (a_uids st) (a_sub st) (a_roc st) (a_buf2 st) s' (a_s1 st),
+                                 ev_if (ent && a_roc st) EvTx ++ [EvData 0])
+                              | None => (st, [])
+                              end
+                   else (st, []) in
+                 let '(st2, ev2) :=
+                   if m1 then match an_update false (a_s1 st1) (a_from st1) nb with
+                              | Some (s', b, ent) =>
+                                (upd st1 (a_buf st1) (a_uids st1) (a_sub st1) (a_roc st1) b (a_s0 st1) s',
+                                 ev_if (ent && a_roc st1) EvTx ++ [EvData 1])
+                              | None => (st1, [])
+                              end
+                   else (st1, []) in
+                 Ret (st2, ev1 ++ ev2))
              else drop_))))).
 
 Definition handle_todrequest : prog an_out :=
@@ -267,7 +322,7 @@ Qed.
 Lemma dmx_bounded n st : AN_HEADER_SIZE < n -> bounded n (handle_dmx n st).
 Proof.
   intros Hn. unfold handle_dmx. an_unfold. repeat bstep.
-  apply bBlk; [|intros; constructor].
+  apply bBlk; [|intros; repeat match goal with |- bounded _ (let '(_, _) := ?x in _) => destruct x end; constructor].
   right. an_ineq.
   unfold u16.
   match goal with |- _ + (?x mod 65536) <= _ => pose proof (N.mod_le x 65536 ltac:(lia)) end. lia.
